@@ -74,6 +74,13 @@ def first_diff(a, b, path=""):
         return None
     if isinstance(a, tuple) and isinstance(b, tuple) and a and b and isinstance(a[0], str) and a[0] == b[0]:
         tag = a[0]
+        if tag == "Procedure":
+            if a[1] != b[1]:
+                return f"{path}: another Procedure object"
+            d = first_diff(a[2], b[2], path)
+            if d:
+                return d
+            return f"{path}: Procedure._provenance_eq_Procedure / _forward replaced"
         if tag == "list":
             if a[1] != b[1]:
                 return f"{path}: list object replaced"
@@ -254,6 +261,8 @@ class Observer:
         self.query_every = opts.get("pure_query_every", 40)
         self.monitor_every = opts.get("pure_monitor_every", 6)
         self.rot = 0
+        self.pending = None
+        self.caches = {}      # (module, name) -> {id(key): (key, snapshot of the value)}
         self.eqv = []
         self.monitor = None
         self.cur_att = None
@@ -353,6 +362,38 @@ class Observer:
                 return False
         return True
 
+    def check_caches(self, when):
+        """module-level analysis caches may gain entries; an entry that exists must stay as it is"""
+        import importlib
+        for (mod, name) in self.opts.get("pure_caches", []):
+            try:
+                d = getattr(importlib.import_module(mod), name)
+            except Exception:
+                continue
+            known = self.caches.setdefault((mod, name), {})
+            try:
+                items = list(d.items())
+            except Exception:
+                continue
+            present = set()
+            for k, v in items:
+                present.add(id(k))
+                sn = snap(v)
+                self.cnt("pure:cache-entry-checks")
+                if id(k) in known:
+                    if known[id(k)][1] != sn:
+                        dd = first_diff(known[id(k)][1], sn) or "?"
+                        self.record("impure", f"{when}: an existing entry of the cache {mod}.{name} was edited: {dd}",
+                                    f"{mod}.{name}", dd, {"diff_class": f"cache:{name}"})
+                        known[id(k)] = (k, sn)
+                else:
+                    known[id(k)] = (k, sn)
+            for kid in list(known):
+                if kid not in present:
+                    self.record("impure", f"{when}: an entry of the cache {mod}.{name} disappeared", f"{mod}.{name}",
+                                "entry removed", {"diff_class": f"cache:{name}:removed"})
+                    del known[kid]
+
     def check_cursors(self, when, owner=None):
         for ce in self.cursors:
             self.cnt("pure:cursor-checks")
@@ -380,9 +421,15 @@ class Observer:
                 continue
             seen.add(i)
             ent = self.live[i]
-            self.check_ent(ent, when, ccode=full, memo=memo,
-                           with_str=full or i < self.nfixed or ent["proc"] is p)
+            ok = self.check_ent(ent, when, ccode=full, memo=memo,
+                                with_str=full or i < self.nfixed or ent["proc"] is p)
+            if not ok and not full:
+                # something changed: attribute every other damaged procedure to this very attempt
+                for j, other in enumerate(self.live):
+                    if j not in seen and j not in todo:
+                        self.check_ent(other, when, memo=memo, with_str=False)
         self.check_cursors(when, owner=None if full else seen)
+        self.check_caches(when)
 
     # ---- queries
     def queries(self, ent):
@@ -455,8 +502,15 @@ class Observer:
         self.queries(self.live[0])
 
     def before(self, p, att):
+        if self.pending is not None:
+            # the stream driver skipped the hooks for the previous attempt (it saw str(p) change)
+            self._after()
+            self.cur_att = self.pending
+            self.sweep(f"after {self.pending['op']} (outcome hidden by the stream driver)", p=None)
+            self.pending = None
         self.nattempt += 1
         self.cur_att = att
+        self.pending = att
         if self.monitor is not None and self.nattempt % self.monitor_every == 0:
             self.monitor.__enter__()
 
@@ -470,11 +524,13 @@ class Observer:
             self.monitor.found = []
 
     def rejected(self, p, att, r):
+        self.pending = None
         self._after()
         self.cnt("pure:rejected-checked")
         self.sweep(f"after rejected {att['op']} ({r.cls})", p=p)
 
     def accepted(self, p, att, p2, hist):
+        self.pending = None
         self._after()
         self.cnt("pure:accepted-checked")
         self.sweep(f"after accepted {att['op']}", p=p)
@@ -491,6 +547,11 @@ class Observer:
             self.queries(ent)
 
     def finish(self):
+        if self.pending is not None:
+            self._after()
+            self.cur_att = self.pending
+            self.sweep(f"after {self.pending['op']} (outcome hidden by the stream driver)", p=None)
+            self.pending = None
         self._after()
         self.cur_att = {"op": "finish", "path": [], "args": {}}
         self.sweep("final sweep over every live procedure", full=True)
